@@ -8,6 +8,8 @@ mod mockfs;
 mod props;
 mod qrun;
 mod sim;
+mod tygen;
+mod tysem;
 
 use fw::*;
 
@@ -46,7 +48,7 @@ fn main() {
                 eprintln!("unknown property {id}");
                 std::process::exit(2);
             };
-            let ctx = Ctx { id: p.id, tier, seed, shards, strict: false };
+            let ctx = Ctx { id: p.id, tier, seed, shards, strict: std::env::var("QV_STRICT").is_ok() };
             let code = (p.run)(&ctx);
             std::process::exit(code);
         }
